@@ -83,6 +83,22 @@ static bool in_domain(int nt, ld v)
 
 bool in_exponent_range(int nt, ld v) { return v != 0 && in_domain(nt, v); }
 
+// A finite f * w whose square overflows the numeric type makes sums of squares and adjustment data
+// infinite; what the refinement makes of that (weights that are not numbers, a selector without a
+// valid answer) is outside every property's domain (C08: finite data; C09, C17: weight vectors).
+// True if the state used by iteration `upto` or an earlier one descends from such data.
+static bool state_after_overflow(ChkptView const& v, u64 upto)
+{
+    for (u64 k = 0; k < upto && k < v.results.size(); ++k)
+    {
+        for (ld a : v.results[k].adj)
+        {
+            if (!std::isfinite(a)) return true;
+        }
+    }
+    return false;
+}
+
 void absorb(RunOut const& out, Report& rep)
 {
     ++rep.runs;
@@ -684,6 +700,20 @@ void oracle_c08(Plan const& p, ChkptView const& v, Report& rep, u64 from)
         return true;
     };
 
+    if (std::getenv("HEPSIM_DUMP") != nullptr)
+    {
+        for (u64 k = 0; k != v.results.size(); ++k)
+        {
+            std::fprintf(stderr, "DUMP iteration %llu beta=%.9Lg minw=%.9Lg\n weights:", (unsigned long long) k, v.beta, v.minw);
+            for (ld w : v.results[k].weights) std::fprintf(stderr, " %.12Lg", w);
+            std::fprintf(stderr, "\n adj:");
+            for (ld w : v.results[k].adj) std::fprintf(stderr, " %.12Lg", w);
+            std::fprintf(stderr, "\n refined:");
+            for (ld w : v.results[k].refined) std::fprintf(stderr, " %.12Lg", w);
+            std::fprintf(stderr, "\n");
+        }
+    }
+
     std::vector<bool> disabled;
 
     // channels the user's own weights disable stay disabled from the first iteration on, whatever
@@ -846,6 +876,7 @@ void oracle_c09_invariant(Plan const& p, RunOut const& out, ChkptView const& v, 
 
     for (u64 k = out.base; k < out.results && k < v.results.size(); ++k)
     {
+        if (state_after_overflow(v, k)) break;
         ResultView const& rv = v.results[k];
         IterCalls ic;
         collect_iteration(out, k, ic);
@@ -1300,6 +1331,12 @@ void oracle_c17(Plan const& p, RunOut const& out, ChkptView const& v, Report& re
 {
     std::string const key = fmt("%s %s", integ_name(p.integ), tname(p));
 
+    if (p.integ == MULTI && state_after_overflow(v, v.results.size()))
+    {
+        rep.probes["skipped-after-overflowed-squares"]++;
+        return;
+    }
+
     for (auto const& c : out.ranks)
     {
         if (!c.proto.empty())
@@ -1540,6 +1577,7 @@ void oracle_c19(Plan const& p, RunCtl const& ctl, RunOut const& out, ChkptView c
 
     for (u64 k = out.base; k < out.results && k < v.results.size(); ++k)
     {
+        if (p.integ == MULTI && state_after_overflow(v, k)) break;
         ResultView const& rv = v.results[k];
         IterCalls ic;
         collect_iteration(out, k, ic);
